@@ -11,13 +11,13 @@ def grid_prop(cases_q, cases_t, size=200, **kw):
 FAMS = {"fam:global": 0.08, "fam:sequence": 0.08, "fam:localp": 0.08, "fam:wavelet": 0.08, "fam:fourier": 0.06}
 PROPS = {
     "C01": grid_prop(60000, 1500000, floors=dict(FAMS, **{"hist:construction": 0.05, "hist:refined": 0.2, "lp:d>=3": 0.01, "wave:o3": 0.02})),
-    "C04": grid_prop(12000, 500000, floors=dict(FAMS, **{"state:pending": 0.05, "state:merged": 0.02, "state:constructing": 0.03, "state:coeff-overwritten": 0.05, "batch>=32": 0.3, "x:support-boundary": 0.1})),
+    "C04": grid_prop(12000, 500000, floors=dict(FAMS, **{"state:pending": 0.03, "state:merged": 0.02, "state:constructing": 0.03, "state:coeff-overwritten": 0.05, "batch>=32": 0.2, "x:support-boundary": 0.06})),
     "C07": grid_prop(15000, 600000, floors=dict(FAMS, **{"limits": 0.2, "scale:vector": 0.02, "scale:raw": 0.02, "classic:tol-gap": 0.05, "classic:tol0": 0.03, "merge": 0.03,
                      "strategy:classic": 0.01, "strategy:parents": 0.01, "strategy:direction": 0.01, "strategy:fds": 0.01, "strategy:stable": 0.01})),
     "C08": grid_prop(20000, 800000, hang_is_violation=True, floors=dict(FAMS, **{"type:curved": 0.05, "limits:binding": 0.2, "limits:persisted-call": 0.1, "limits:-1-mixed": 0.1, "limits:saturated-return": 0.03})),
     "C09": grid_prop(8000, 300000, floors=dict(FAMS, **{"batch:singles": 0.2, "interleaved-candidates": 0.1, "start:empty": 0.15, "target:stable-refined": 0.03})),
     "C11": grid_prop(25000, 800000, floors=dict(FAMS, **{"range-copy": 0.1, "src:pending": 0.015, "src:constructing": 0.05, "range:construction-continuation": 0.01})),
-    "C14": grid_prop(30000, 1000000, hang_is_violation=True, floors={"state:E": 0.03, "state:F": 0.05, "state:L": 0.1, "state:P": 0.03, "state:C": 0.05, "state:Z": 0.03, "post:empty": 0.03}),
+    "C14": grid_prop(30000, 1000000, hang_is_violation=True, floors={"state:E": 0.03, "state:F": 0.05, "state:L": 0.1, "state:P": 0.012, "state:C": 0.05, "state:Z": 0.03, "post:empty": 0.03}),
     "C12": dict(flavour="tsan", binary="vdrive_tsan", level="exploration", props_dir="props_tsan",
                 quick=dict(cases=3000, size=200, wall=900, case_budget=30, shards=8), thorough=dict(cases=200000, size=300, wall=3000, case_budget=60),
                 floors=dict(FAMS, **{"wavelet-weight-queries": 0.03}),
@@ -39,7 +39,7 @@ PROPS = {
                                   "the recomputation bound is asserted in sequential mode, where every computed sample is part of the next checkpoint"]),
     "C06": grid_prop(40000, 1500000,
                      floors={"fam:global": 0.08, "fam:sequence": 0.08, "fam:localp": 0.08, "fam:wavelet": 0.08, "fam:fourier": 0.08,
-                             "fmt:ascii": 0.35, "sec:pending": 0.04, "sec:construction": 0.04, "sec:transform": 0.04, "sec:limits": 0.04}),
+                             "fmt:ascii": 0.35, "sec:pending": 0.012, "sec:construction": 0.04, "sec:transform": 0.04, "sec:limits": 0.04}),
 }
 
 GUARD = "TASMANIAN_VERIF_HOOKS"
@@ -315,13 +315,13 @@ for _f in sorted(_glob.glob(_os.path.join(_os.path.dirname(_os.path.abspath(__fi
 
 # Budgets (cases per run). Quick tiers are sized from the throughput measured on the idle 16-core sandbox so that every quick check generates for roughly
 # 40-90 s (a quick tier of a few seconds stays green on broken trees: several seeded changes need 10^4-10^5 cases of their class).
-_QUICK = {"C01": 100000, "C02": 400000, "C03": 200000, "C04": 16000, "C05": 50000, "C06": 45000, "C07": 150000, "C08": 150000, "C09": 40000, "C10": 70000, "C11": 50000,
-          "C12": 40000, "C13": 280, "C14": 300000, "C15": 800000, "C16": 5000, "C17": 6000, "C18": 40000, "C19": 300000, "C20": 800000}
+_QUICK = {"C01": 100000, "C02": 400000, "C03": 200000, "C04": 16000, "C05": 60000, "C06": 45000, "C07": 150000, "C08": 150000, "C09": 40000, "C10": 70000, "C11": 120000,
+          "C12": 60000, "C13": 280, "C14": 300000, "C15": 1200000, "C16": 10000, "C17": 20000, "C18": 160000, "C19": 600000, "C20": 1200000}
 _THOROUGH = {"C12": 1000000, "C13": 3500, "C17": 300000, "C18": 1000000, "C16": 150000, "C02": 6000000, "C03": 4000000, "C07": 3000000, "C08": 3000000, "C14": 6000000,
              "C15": 12000000, "C19": 6000000, "C20": 12000000, "C09": 900000}
 for _id, _n in _QUICK.items(): PROPS[_id]["quick"]["cases"] = _n
 for _id, _n in _THOROUGH.items(): PROPS[_id]["thorough"]["cases"] = _n
-for _id in ("C12", "C18"): PROPS[_id]["quick"]["shards"] = 14
+for _id in ("C12", "C18"): PROPS[_id]["quick"]["shards"] = 14; PROPS[_id]["schedule_dependent"] = True   # an outcome that differs between two runs of the same input IS the violation for properties about schedules
 PROPS["C13"]["thorough"].update(shards=8, case_budget=120); PROPS["C17"]["thorough"].update(shards=12, case_budget=120)
 
 # coverage-guided phase (libFuzzer, thorough tier): the in-process properties of the ASan driver; C12/C18 (TSan), C13/C16/C17 (spawn processes) stay rapidcheck-only
